@@ -16,7 +16,7 @@ from dataclasses import dataclass, field
 
 from .pkg import PKG
 
-LETTERS = ["pf", "qf", "pc", "qc", "en", "qe", "ex"]
+LETTERS = ["pf", "qf", "pc", "qc", "en", "qe", "ex", "of"]
 INIT_LETTERS = ["", "ic", "if"]
 R_FORMS = ["none", "name", "alias", "priv_alias", "to_private", "star", "module", "module_alias", "abs_name", "abs_module_alias"]
 
@@ -89,6 +89,8 @@ def _module_source(T: str, letters) -> tuple[str, list[tuple]]:  # noqa: N803
     d: list[tuple] = []
     if "en" in letters or "qe" in letters:
         src.append("from enum import Enum\n")
+    if "pc" in letters or "of" in letters:
+        src.append("from typing import overload\n")
     for L in letters:  # noqa: N806
         if L == "pf":
             src.append(f"def pf{T}(a: int) -> int:\n    return a\n")
@@ -99,7 +101,10 @@ def _module_source(T: str, letters) -> tuple[str, list[tuple]]:  # noqa: N803
         elif L == "pc":
             src.append(
                 f"class Pc{T}:\n    ca{T}: int = 1\n    _cq{T}: int = 2\n\n"
-                f"    def __init__(self, p: int) -> None:\n        self.ia{T}: int = p\n        self._iq{T}: int = p\n\n"
+                f"    def __init__(self, p: int) -> None:\n        self.ia{T}: int = p\n        self._iq{T}: int = p\n        self.ta{T}, self._tq{T} = p, p\n\n"
+                f"    @overload\n    def om{T}(self, a: int) -> int: ...\n    @overload\n    def om{T}(self, a: str) -> str: ...\n    def om{T}(self, a):\n        return a\n\n"
+                f"    @overload\n    @staticmethod\n    def os{T}(a: int) -> int: ...\n    @overload\n    @staticmethod\n    def os{T}(a: str) -> str: ...\n    @staticmethod\n    def os{T}(a):\n        return a\n\n"
+                f"    @property\n    def ps{T}(self) -> int:\n        return 1\n\n    @ps{T}.setter\n    def ps{T}(self, v: int) -> None:\n        ...\n\n"
                 f"    def pm{T}(self, a: int) -> int:\n        return a\n\n"
                 f"    def _qm{T}(self) -> int:\n        return 1\n\n"
                 f"    def __dm{T}(self) -> int:\n        return 1\n\n"
@@ -114,6 +119,7 @@ def _module_source(T: str, letters) -> tuple[str, list[tuple]]:  # noqa: N803
             d += [
                 ("class", f"Pc{T}", (), L, False), ("class_attr", f"ca{T}", c, L, False), ("class_attr", f"_cq{T}", c, L, False),
                 ("inst_attr", f"ia{T}", c, L, False), ("inst_attr", f"_iq{T}", c, L, False), ("method", f"pm{T}", c, L, False),
+                ("inst_attr", f"ta{T}", c, L, False), ("inst_attr", f"_tq{T}", c, L, False), ("method", f"om{T}", c, L, False), ("static_method", f"os{T}", c, L, False), ("property", f"ps{T}", c, L, False),
                 ("method", f"_qm{T}", c, L, False), ("method", f"__dm{T}", c, L, False), ("method", "__call__", c, L, False), ("property", f"pr{T}", c, L, False),
                 ("static_method", f"sm{T}", c, L, False), ("class_method", f"cm{T}", c, L, False), ("class", f"Ni{T}", c, L, False),
                 ("method", f"nm{T}", (*c, f"Ni{T}"), L, False), ("class", f"_Nq{T}", c, L, False), ("method", f"nqm{T}", (*c, f"_Nq{T}"), L, False),
@@ -129,6 +135,9 @@ def _module_source(T: str, letters) -> tuple[str, list[tuple]]:  # noqa: N803
         elif L == "qe":
             src.append(f"class _Qe{T}(Enum):\n    QA{T} = 1\n")
             d += [("enum", f"_Qe{T}", (), L, False), ("enum_member", f"QA{T}", (f"_Qe{T}",), L, False)]
+        elif L == "of":
+            src.append(f"@overload\ndef of{T}(a: int) -> int: ...\n@overload\ndef of{T}(a: str) -> str: ...\ndef of{T}(a):\n    return a\n")
+            d.append(("function", f"of{T}", (), L, False))
         elif L == "ex":
             src.append(f"class Ex{T}(Exception):\n    def exm{T}(self) -> int:\n        return 1\n")
             d += [("class", f"Ex{T}", (), L, True), ("method", f"exm{T}", (f"Ex{T}",), L, True)]
@@ -139,7 +148,7 @@ def _target(letters, T, private: bool) -> str | None:  # noqa: N803
     """The declaration a by-name re-export form names."""
     if private:
         return f"_Qc{T}" if "qc" in letters else (f"_qf{T}" if "qf" in letters else (f"_Qe{T}" if "qe" in letters else None))
-    return f"Pc{T}" if "pc" in letters else (f"pf{T}" if "pf" in letters else (f"En{T}" if "en" in letters else (f"Ex{T}" if "ex" in letters else None)))
+    return f"Pc{T}" if "pc" in letters else (f"pf{T}" if "pf" in letters else (f"En{T}" if "en" in letters else (f"Ex{T}" if "ex" in letters else (f"of{T}" if "of" in letters else None))))
 
 
 def build(spec: TreeSpec) -> TreeSpec | None:
